@@ -504,6 +504,7 @@ func propC17b(t *rapid.T) {
 	dest, _ := massutil.NewAddressWitnessScriptHash(w.strangers[0][:], config.ChainParams)
 	stop := make(chan struct{})
 	stopFaults := make(chan struct{})
+	fatalsBefore := guard.Fatals()
 	var wg sync.WaitGroup
 	var calls int64
 	panics := make(chan string, 8)
@@ -663,7 +664,16 @@ func propC17b(t *rapid.T) {
 		time.Sleep(time.Millisecond)
 	}
 	close(stop)
-	wg.Wait()
+	waited := make(chan struct{})
+	go func() { wg.Wait(); close(waited) }()
+	select {
+	case <-waited:
+	case <-time.After(90 * time.Second):
+		if guard.Fatals() > fatalsBefore {
+			t.Fatalf("a wallet goroutine ended in a FATAL log exit during the concurrent workload and the API calls behind it never returned\n%s", guard.LastFatal())
+		}
+		t.Fatalf("API calls of the concurrent workload did not return within 90 s after the workload ended (deadlock?)\n%s", wantedStacks(w.env.HandlerPtr()))
+	}
 	select {
 	case p := <-panics:
 		t.Fatalf("%s", p)
